@@ -26,6 +26,7 @@ from typing import Any
 
 from happysimulator.core.entity import Entity
 from happysimulator.core.event import Event
+from happysimulator.core.sim_future import SimFuture
 
 logger = logging.getLogger(__name__)
 
@@ -160,9 +161,13 @@ class Barrier(Entity):
 
         # Not the last - must wait
         released = [False]
+        # Park on a future instead of polling with zero-delay yields, so the
+        # clock can advance to the instant the wake-up happens.
+        wake_signal = SimFuture()
 
         def on_release():
             released[0] = True
+            wake_signal.resolve(None)
 
         waiter = _BarrierWaiter(callback=on_release, enqueue_time_ns=enqueue_time)
         self._waiters.append(waiter)
@@ -177,7 +182,7 @@ class Barrier(Entity):
             if self._generation != my_generation:
                 released[0] = True
                 break
-            yield 0.0
+            yield wake_signal
 
         # Record wait time
         if self._clock:
